@@ -188,8 +188,20 @@ def translate(repo, py=None):
     body = [s for s in fn.body if not (isinstance(s, ast.Expr) and isinstance(s.value, ast.Constant))]
     first = body[0]
     want = "%s = float(%s)" % (ARG_FLOAT, param)
-    if ast.unparse(first).replace(" ", "") != want.replace(" ", ""):
-        bad(first, "first statement is not `%s`" % want)
+    # the prologue: `fvalue = float(value)`, bare or guarded so that an int too large for a double is refused
+    #   try: fvalue = float(value)
+    #   except OverflowError: raise ValueError(...)
+    if ast.unparse(first).replace(" ", "") == want.replace(" ", ""):
+        overflow_guard = False
+    elif (isinstance(first, ast.Try) and len(first.body) == 1 and not first.orelse and not first.finalbody
+          and ast.unparse(first.body[0]).replace(" ", "") == want.replace(" ", "") and len(first.handlers) == 1
+          and first.handlers[0].type is not None and ast.unparse(first.handlers[0].type) == "OverflowError"
+          and len(first.handlers[0].body) == 1 and isinstance(first.handlers[0].body[0], ast.Raise)
+          and isinstance(first.handlers[0].body[0].exc, ast.Call)
+          and ast.unparse(first.handlers[0].body[0].exc.func) == "ValueError"):
+        overflow_guard = True
+    else:
+        bad(first, "first statement is not `%s` (bare or in try/except OverflowError: raise ValueError)" % want)
     for n in ast.walk(ast.Module(body=body[1:], type_ignores=[])):
         if isinstance(n, ast.Name) and n.id == param:
             bad(n, "the raw argument is used after the float() conversion")
@@ -206,8 +218,11 @@ def translate(repo, py=None):
         term + ".",
         "Definition gen_convert2es6 : list stmt := Eval vm_compute in gen_convert2es6_raw.",
         "",
+        "(* the float() conversion of the argument is guarded: OverflowError (an int too large for a double) -> ValueError *)",
+        "Definition gen_float_overflow_guard : bool := %s." % ("true" if overflow_guard else "false"),
+        "",
     ])
-    return text, {"statements": len(body) - 1}
+    return text, {"statements": len(body) - 1, "overflow_guard": overflow_guard}
 
 
 # ---------------------------------------------------------------------------
